@@ -2,6 +2,7 @@ import CoapVerif.Model.Gate
 import CoapVerif.Lemmas.Parse
 import CoapVerif.Props.C03
 import CoapVerif.Lemmas.QBlock
+import CoapVerif.Lemmas.QBlock2
 /-
 C02 — arbitrary network input never breaks memory safety, liveness or the endpoint.
 
@@ -290,5 +291,105 @@ example : add408Block 65536 = some [26, 0, 1, 0, 0] := by decide
 example : (gapLoop [(0, 2), (5, 6), (9, 9)] none []) = (some 9, [3, 4, 7, 8]) := by decide
 example : missing408 [(3, 4)] (some 6) = [0, 1, 2, 5, 6] := by decide
 example : allInForPayloadSet 10 [(0, 9), (12, 12)] 0 = true ∧ anyNextPayloadSet 10 [(0, 9), (12, 12)] 1 = true := by decide
+
+/-! ## RFC 9177 payload-set arithmetic (round R02Qb) -/
+
+/-- `coap_request_missing_q_block2`, for EVERY `rec_blocks` (no well-formedness assumed), block size, total length,
+MAX_PAYLOADS ≥ 1, with and without `COAP_BLOCK_USE_M_Q_BLOCK`: the Q-Block2 options of the ONE request it sends are strictly
+increasing (no duplicates), at most MAX_PAYLOADS, all of ONE payload set (which becomes `processing_payload_set`), M ≤ 1, and
+each number lies below the begin of a recorded range or has its offset inside `total_len`. -/
+theorem q2_recovery_request_bounded (mp : Nat) (hmp : 0 < mp) (useM : Bool) (rs : Ranges) (szx totalLen : Nat) :
+    ((reqMissingQ2 mp useM rs szx totalLen).1.map Prod.fst).Pairwise (· < ·) ∧
+    (reqMissingQ2 mp useM rs szx totalLen).1.length ≤ mp ∧
+    (∀ q, q ∈ (reqMissingQ2 mp useM rs szx totalLen).1 →
+      ((∃ r, r ∈ rs ∧ q.1 < r.1) ∨ q.1 * 2 ^ (szx + 4) < totalLen) ∧ q.2 ≤ 1) ∧
+    ((reqMissingQ2 mp useM rs szx totalLen).1 ≠ [] →
+      ∃ s, (reqMissingQ2 mp useM rs szx totalLen).2 = some s ∧ ∀ q, q ∈ (reqMissingQ2 mp useM rs szx totalLen).1 → q.1 / mp = s) :=
+  reqMissingQ2_spec mp hmp useM rs szx totalLen
+
+/-- The bookkeeping invariant (`Q2Inv`: `rec_blocks` sorted / disjoint / non-adjacent / within COAP_RBLOCK_CNT, every recorded
+block < 2^20 with its offset inside `total_len`, in the block size the transfer is tracked in) is preserved by EVERY arriving
+response (`q2Step` = the Q-Block2 path of `coap_handle_response_get_block`: any NUM < 2^20 — `coap_get_block_b` delivers no
+other —, M, SZX, payload length, Size2, ETag, Content-Format), hence holds after ANY arrival sequence from any state that has
+it (the state after `coap_block_new_lg_crcv` has it: `q2_initial_state_inv`). -/
+theorem q2_bookkeeping_invariant (cap mp : Nat) (useM isNon : Bool) : ∀ (is : List Q2In) (st0 : Q2State),
+    Q2Inv cap st0 → (∀ i, i ∈ is → i.num < 2 ^ 20) →
+    Q2Inv cap (is.foldl (fun st i => (q2Step cap mp useM isNon st i).1) st0)
+  | [], st0, h0, _ => h0
+  | i :: rest, st0, h0, hn => by
+    rw [List.foldl_cons]
+    exact q2_bookkeeping_invariant cap mp useM isNon rest _ (q2Step_inv cap mp useM isNon st0 i (hn i (by simp)) h0)
+      (fun j hj => hn j (by simp [hj]))
+
+theorem q2_initial_state_inv (cap : Nat) (etag : Bytes) (a b c d e : Nat) (x y : Bool) :
+    Q2Inv cap ⟨x, y, etag, a, b, c, [], d, e⟩ :=
+  ⟨by simp [WfFrom], by simp, by intro k hk; simp [Covers] at hk⟩
+
+/-- In every state with the invariant — so after ANY arrival sequence — a recovery request names only blocks whose offset
+lies inside the body (`total_len`), never a block at or beyond its end; and only 20-bit numbers as long as the body has at most
+2^20 blocks (`total_len` comes from the peer's Size2: a peer announcing more than 2^20 blocks is the only way to a 21-bit
+number, and only behind 2^20 received blocks). -/
+theorem q2_recovery_inside_body (cap mp : Nat) (hmp : 0 < mp) (useM : Bool) (st : Q2State) (h : Q2Inv cap st) :
+    ∀ q, q ∈ (reqMissingQ2 mp useM st.rs st.szx st.totalLen).1 →
+      q.1 * 2 ^ (st.szx + 4) < st.totalLen ∧ (st.totalLen ≤ 2 ^ 20 * 2 ^ (st.szx + 4) → q.1 < 2 ^ 20) := by
+  intro q hq
+  have hin : q.1 * 2 ^ (st.szx + 4) < st.totalLen := by
+    rcases ((reqMissingQ2_spec mp hmp useM st.rs st.szx st.totalLen).2.2.1 q hq).1 with ⟨r, hr, hlt⟩ | hlt
+    · have hc := (h.2.2 r.1 (wf_begin_covered st.rs 0 r h.1 hr)).2
+      have : q.1 * 2 ^ (st.szx + 4) ≤ r.1 * 2 ^ (st.szx + 4) := Nat.mul_le_mul_right _ (Nat.le_of_lt hlt)
+      omega
+    · exact hlt
+  refine ⟨hin, fun hle => ?_⟩
+  have hlt : q.1 * 2 ^ (st.szx + 4) < 2 ^ 20 * 2 ^ (st.szx + 4) := by omega
+  exact Nat.lt_of_mul_lt_mul_right hlt
+
+/-- `coap_send_q_blocks` (NON, datagram transport), for EVERY body length, block size, MAX_PAYLOADS ≥ 1, starting block and M:
+the blocks that follow the caller's block are consecutive later numbers of ONE payload set (that of `num + 1`) — at most
+MAX_PAYLOADS datagrams per burst —, each a block of the body (offset inside it, the body's M bit), and a 20-bit number as long
+as the body has at most 2^20 blocks (coap_add_data_large_internal caps the length at MAX_BLK_LEN = (2^20 − 1)·1024 only). -/
+theorem q2_burst_bounded (mp len szx num : Nat) (hmp : 0 < mp) (m : Bool) :
+    ((sendQNon mp len szx num m).map Prod.fst).Pairwise (· < ·) ∧ (sendQNon mp len szx num m).length ≤ mp ∧
+    ∀ x, x ∈ sendQNon mp len szx num m →
+      num < x.1 ∧ x.1 * 2 ^ (szx + 4) < len ∧ x.2 = moreBit len x.1 szx ∧ x.1 / mp = (num + 1) / mp ∧
+      (len ≤ 2 ^ 20 * 2 ^ (szx + 4) → x.1 < 2 ^ 20) := by
+  unfold sendQNon
+  by_cases hc : m = true ∧ (num + 1) % mp + 1 ≠ mp
+  · rw [if_pos hc]
+    obtain ⟨l, e1, e2, e3⟩ := sendQLoop_spec mp len szx hmp len num []
+    rw [e1, List.nil_append]
+    refine ⟨e2, ?_, ?_⟩
+    · have := pairwise_one_set mp ((num + 1) / mp) hmp (l.map Prod.fst) e2 (fun x hx => by
+        obtain ⟨y, hy, rfl⟩ := List.mem_map.mp hx
+        exact (e3 y hy).2.2.2)
+      simpa using this
+    · intro x hx
+      have := e3 x hx
+      refine ⟨this.1, this.2.1, this.2.2.1, this.2.2.2, fun hle => ?_⟩
+      have h1 : x.1 * 2 ^ (szx + 4) < 2 ^ 20 * 2 ^ (szx + 4) := Nat.lt_of_lt_of_le this.2.1 hle
+      exact Nat.lt_of_mul_lt_mul_right h1
+  · rw [if_neg hc]
+    exact ⟨by simp, by simp, by intro x hx; cases hx⟩
+
+-- non-vacuity / witnesses
+example : reqMissingQ2 3 false [(0, 0), (5, 6)] 0 200 = ([(1, 0), (2, 0)], some 0) := by decide
+example : reqMissingQ2 3 false [(0, 4)] 0 200 = ([(5, 0)], some 1) := by decide
+example : reqMissingQ2 3 true [(0, 1)] 0 200 = ([(2, 1)], some 0) := by decide
+example : sendQNon 3 100 0 0 true = [(1, 1), (2, 1)] ∧ sendQNon 3 100 0 2 true = [(3, 1), (4, 1), (5, 1)] ∧
+    sendQNon 3 100 0 1 true = [] ∧ sendQNon 10 100 0 0 true = [(1, 1), (2, 1), (3, 1), (4, 1), (5, 1), (6, 0)] := by decide
+example : Q2Inv 16 ⟨false, false, [], 100, 0, 0, [(0, 1), (4, 4)], 0, 0⟩ :=
+  ⟨by simp [WfFrom], by simp, by
+    intro k hk
+    simp [Covers] at hk
+    refine ⟨by omega, ?_⟩
+    show k * 2 ^ (0 + 4) < 100
+    omega⟩
+/-- open finding c02-qblock2-num-2e20: with `total_len` > 2^20 blocks the M variant asks for block 2^20 (a 21-bit number) -/
+example : reqMissingQ2 2 true [(1048575, 1048575)] 0 16777217 = ([(1048576, 1)], some 524288) := by decide
+/-- the one request that is NOT a recovery request — the `continue` for the next payload set, NUM = range[0].end + 1 — can name
+a block BEYOND the body when a hostile server sends the last block first (documented behaviour, design/C02.md): body of 97
+bytes = blocks 0..6; block 6 (M=0, 1 byte), then block 5 (M=1) → a recovery request for blocks 0, 1, 2 and a `continue` for block 7. -/
+example : ((q2Step 16 3 false true ⟨true, false, [], 0, 0, 0, [], 0, 0⟩ ⟨6, 0, 0, 1, none, none, 0⟩).2.2 = .skip) ∧
+    (q2Step 16 3 false true (q2Step 16 3 false true ⟨true, false, [], 0, 0, 0, [], 0, 0⟩ ⟨6, 0, 0, 1, none, none, 0⟩).1
+      ⟨5, 1, 0, 16, some 97, none, 0⟩).2 = ([[(0, 0), (1, 0), (2, 0)], [(7, 1)]], .next) := by decide
 
 end Coap.C02
